@@ -2,6 +2,7 @@
 //! observation (a list of fields, each a list of numbers) per case.  See DESIGN.md section 4.2.
 mod util;
 mod sdq;
+mod sod;
 mod win;
 
 use std::io::{BufRead, Write};
@@ -31,6 +32,7 @@ fn main() {
         let obs: util::Obs = match family {
             "win" => win::run(line),
             "sdq" => sdq::run(line),
+            "sod" => sod::run(line),
             _ => {
                 eprintln!("unknown family {family}");
                 std::process::exit(2);
